@@ -22,3 +22,26 @@ Proof.
   intros a v H. pose proof (FrontUsable.visit_cases a) as C. rewrite H in C. exact (proj2 C).
 Qed.
 Print Assumptions C10_rules_as_written.
+
+From YG Require Import Lexer LexerRoundtrip.
+Close Scope Z_scope.
+Open Scope nat_scope.
+
+(* token level, on the lexer model that is compared with Parser/Lex.go token by token on every run: for every token sequence (identifiers, numbers, : | ; < >, %%, character literals, brace-balanced actions, the directive keywords) and every layout - any separators (blanks, tabs, newlines, // comments, /* */ comments incl. runs of stars) between any two tokens, none at all where the two tokens cannot run together - lexing the rendering gives back exactly those tokens (kind, text, and the text that follows, which is how the epilogue is found), then EOF. Not covered by this statement: %union { } and %{ %} bodies, string literals, the escaped quote literal *)
+Theorem C10_lexer_roundtrip :
+  forall (d : doc) (trail : list sepr),
+         wf_doc d trail ->
+         lex (render d trail) =
+         (expect d trail ++ [{| t_kind := LxEOF; t_value := []; t_rest := [] |}], Closed).
+Proof. exact LexerRoundtrip.lex_render. Qed.
+Print Assumptions C10_lexer_roundtrip.
+
+(* non-vacuity: a rule with a doc comment closed by two stars, a literal, a %prec annotation and an action, written without
+   any optional blank, meets the hypotheses; the tokens come back *)
+Example C10_lexer_roundtrip_example :
+  let d : doc :=
+    [([], TkId "a" []); ([], TkPunct PColon); ([SBlock ["*"; " "; "x"; " "; "*"]], TkChar "+");
+     ([SWs " "; SLine ["c"]], TkDir DPrec); ([SWs " "], TkId "B" ["1"]); ([], TkAct ["$"; "$"; "}"]); ([], TkPunct PSemi)] in
+  forallb (fun x => forallb wf_sep (fst x) && wf_tok (snd x)) d = true /\
+  map t_kind (fst (lex (render d [SWs Lexer.nl]))) = [LxIdentifier; LxDefine; LxChar; LxPrec; LxIdentifier; LxActionQuote; LxEnd; LxEOF].
+Proof. vm_compute. split; reflexivity. Qed.
